@@ -404,6 +404,44 @@ def hypotest_returns (tailProbs expected expectedSet calculator isQ0 : Bool) : L
   | true, true, true, false, true => [["CLsb"], ["CLb"], ["CLsb_exp2"], ["CLsb_exp0", "CLsb_exp1", "CLsb_exp2", "CLsb_exp3", "CLsb_exp4"]]
   | true, true, true, true, true => [["CLsb"], ["CLb"], ["CLsb_exp2"], ["CLsb_exp0", "CLsb_exp1", "CLsb_exp2", "CLsb_exp3", "CLsb_exp4"], ["calculator"]]
 
+/-- `_check_hypotest_prerequisites` (source sha256 6c49aabe1cad378e…) for a three-parameter model: the exception class raised (`"ok"` = none), the same
+whether the fixed flags are passed by the caller or come from the model's suggestion inside `hypotest` -/
+def hypotest_prereq (poi : Option Nat) (f0 f1 f2 : Bool) : String :=
+  match poi, f0, f1, f2 with
+  | none, false, false, false => "UnspecifiedPOI"
+  | none, true, false, false => "UnspecifiedPOI"
+  | none, false, true, false => "UnspecifiedPOI"
+  | none, true, true, false => "UnspecifiedPOI"
+  | none, false, false, true => "UnspecifiedPOI"
+  | none, true, false, true => "UnspecifiedPOI"
+  | none, false, true, true => "UnspecifiedPOI"
+  | none, true, true, true => "UnspecifiedPOI"
+  | some 0, false, false, false => "ok"
+  | some 0, true, false, false => "InvalidModel"
+  | some 0, false, true, false => "ok"
+  | some 0, true, true, false => "InvalidModel"
+  | some 0, false, false, true => "ok"
+  | some 0, true, false, true => "InvalidModel"
+  | some 0, false, true, true => "ok"
+  | some 0, true, true, true => "InvalidModel"
+  | some 1, false, false, false => "ok"
+  | some 1, true, false, false => "ok"
+  | some 1, false, true, false => "InvalidModel"
+  | some 1, true, true, false => "InvalidModel"
+  | some 1, false, false, true => "ok"
+  | some 1, true, false, true => "ok"
+  | some 1, false, true, true => "InvalidModel"
+  | some 1, true, true, true => "InvalidModel"
+  | some 2, false, false, false => "ok"
+  | some 2, true, false, false => "ok"
+  | some 2, false, true, false => "ok"
+  | some 2, true, true, false => "ok"
+  | some 2, false, false, true => "InvalidModel"
+  | some 2, true, false, true => "InvalidModel"
+  | some 2, false, true, true => "InvalidModel"
+  | some 2, true, true, true => "InvalidModel"
+  | _, _, _, _ => "out-of-range"
+
 /-- is the result a bare value (not a tuple)? -/
 def hypotest_bare (tailProbs expected expectedSet calculator isQ0 : Bool) : Bool :=
   match tailProbs, expected, expectedSet, calculator, isQ0 with
